@@ -61,6 +61,16 @@ def choice_spec(n: int = 2) -> dict:
     return {"name": f"choice{n}", "confluent": False, "stages": [specs.st("r")] + [specs.st(c, ["r"], choice="G") for c in sib], "choice": {"G": sib}}
 
 
+def choice_with_mutexes_spec() -> dict:
+    """The siblings of one deferred-choice group each also hold a mutex of their own (different keys): taking the
+    mutex must not stand in for claiming the choice."""
+    sib = ["c1", "c2"]
+    stages = [specs.st("r")]
+    for i, c in enumerate(sib):
+        stages.append(specs.st(c, ["r"], choice="G", mutex=f"K{i}"))
+    return {"name": "choice_mutex2", "confluent": False, "stages": stages, "choice": {"G": sib}, "mutex": {"K0": ["c1"], "K1": ["c2"]}}
+
+
 def mutex_jump_spec() -> dict:
     """m1 (mutex) -> c jumps back to m1 once; m2 (mutex) is a sibling of m1."""
     return {
@@ -86,13 +96,14 @@ SPECS = [
     lambda: choice_spec(3),
     mutex_jump_spec,
     lambda: mutex_spec("suspend", 2),
+    choice_with_mutexes_spec,
 ]
 
 
 def gen_cases(tier: str, seed: int) -> list[dict]:
     cases = []
     chunks = 2 if tier == "quick" else 10
-    for si in (0, 2, 3, 4, 5):
+    for si in (0, 2, 3, 4, 5, 9):
         for c in range(chunks):
             cases.append({"kind": "pair", "spec": si, "chunk": c, "chunks": chunks, "seed": seed, "sample": 200 if tier == "quick" else 4000})
     for i in range(24 if tier == "quick" else 250):
@@ -169,7 +180,7 @@ def group_oracle(spec: dict, run, prop: str = "C11") -> tuple[list[dict], Counte
 def _cut_siblings(spec: dict):
     from ..world import World
 
-    sibs = (list((spec.get("mutex") or {}).values()) + list((spec.get("choice") or {}).values()))[0][:2]
+    sibs = (list((spec.get("choice") or {}).values()) + list((spec.get("mutex") or {}).values()))[0][:2]
     w = World()
     try:
         w.submit(spec)
